@@ -13,8 +13,9 @@ Function level: `unit_from_dtype`, `check_dtype`, `_update_columns`, the column 
 Oracle (no model involved): the C04 statement evaluated on the real table after every step — one unit per dataframe
 column, positional list == per-column lookup in dataframe column order, iteration order, every column still carries
 the unit that was explicitly given for it (at construction by position, through add_column, a setter or a re-wrap) as
-long as it stays in the frame, and the CSV text, JsonData and Excel-sheet layout pair every name with that column's
-own unit (and display format).
+long as it stays in the frame, and the CSV text (written in both orientations), JsonData and Excel-sheet layout pair
+every name with that column's own unit; in the CSV text the numbers of every column are rendered with that column's own
+display format (Python's format() of the stored values, str() for columns without one).
 
 This module is also the engine of C15 (`harness/props/c15.py` re-uses it with its own oracle and weights).
 """
@@ -510,6 +511,24 @@ def op_set_col_unit(ctx):
     return f"t[{name!r}].unit={u!r}"
 
 
+def op_set_format(ctx):
+    """`table.column_metadata[name].display_format = ColumnFormat(...)` (or None), on numeric columns mostly"""
+    from pdtable import Table
+    from pdtable.table_metadata import ColumnFormat
+    rng = ctx.rng
+    numeric = [c for c, dt in zip(ctx.df.columns, ctx.df.dtypes) if dt.kind in "fi"]
+    name = rng.choice(numeric) if numeric and rng.random() < 0.8 else pick_name(ctx, 0.1)
+    spec = rng.choice([1, 3, "8.3e", ".2f", "+.1f", None])
+    fmt = None if spec is None else ColumnFormat(spec)
+    try:
+        quiet(lambda: Table(ctx.df).column_metadata)[name].display_format = fmt
+        res = None
+    except Exception as e:
+        res = exc_name(e)
+    ctx.send("set_fmt", res, name=name, fmt=None if fmt is None else str(fmt.specifier))
+    return f"column_metadata[{name!r}].display_format={None if fmt is None else fmt.specifier!r}"
+
+
 def op_rewrap(ctx):
     from pdtable import Table
     rng = ctx.rng
@@ -990,7 +1009,7 @@ def op_iloc_cols(ctx):
 OPS = {
     "add_column": (op_add_column, 8), "setitem": (lambda c: op_add_column(c, True), 6),
     "set_units": (op_set_units, 4), "set_all_units": (op_set_all_units, 2), "set_col_unit": (op_set_col_unit, 4),
-    "rewrap": (op_rewrap, 4),
+    "rewrap": (op_rewrap, 4), "set_format": (op_set_format, 6),
     "df_insert": (op_df_insert, 6), "df_del": (op_df_del, 4), "df_rename": (op_df_rename, 4),
     "df_setcols": (op_df_setcols, 3), "df_move": (op_df_move, 5), "df_sortcols": (op_df_sortcols_inplace, 2),
     "df_assign": (op_df_assign, 6), "df_astype": (op_df_astype, 4), "df_loc_append": (op_df_loc_append, 4),
@@ -1005,7 +1024,7 @@ OPS = {
 C15_WEIGHTS = {
     "add_column": 8, "setitem": 8, "set_units": 5, "set_col_unit": 5, "set_all_units": 1, "rewrap": 6,
     "df_assign": 10, "df_astype": 10, "df_loc_append": 10, "df_drop_rows": 5, "df_setcell": 6, "df_fillna_inplace": 3,
-    "df_insert": 3, "df_del": 2, "df_rename": 1, "df_move": 1, "df_restore": 6, "df_setcols": 2, "df_del_all": 1, "copy": 5, "astype": 8, "fillna": 6, "replace": 5,
+    "df_insert": 3, "df_del": 2, "df_rename": 1, "df_move": 1, "df_restore": 6, "df_setcols": 2, "df_del_all": 1, "set_format": 1, "copy": 5, "astype": 8, "fillna": 6, "replace": 5,
     "rows": 6, "concat": 4, "merge": 2, "assign": 3, "select": 2, "reindex": 2,
 }
 
@@ -1089,6 +1108,22 @@ def run_writers(ctx, t):
                       "rows": [ln.split(";") for ln in lines[4:] if ln != ""]}
     except Exception as e:
         res["csv"] = exc_name(e)
+    # the same table written transposed (one line per column: name;unit;values...)
+    meta = None
+    try:
+        meta = quiet(lambda: t.metadata)
+        was = meta.transposed
+        meta.transposed = True
+        try:
+            s = io.StringIO()
+            quiet(write_csv, t, s)
+            lines = s.getvalue().split("\n")
+            ncol = len(t.df.columns)
+            res["csv_t"] = {"cols": [ln.split(";") for ln in lines[2:2 + ncol]], "head": lines[0]}
+        finally:
+            meta.transposed = was
+    except Exception as e:
+        res["csv_t"] = exc_name(e)
     try:
         jd = quiet(table_to_json_data, t)
         res["json"] = [[k, v["unit"]] for k, v in jd["columns"].items()]
@@ -1165,18 +1200,23 @@ def oracle_c04(ctx, t, units, ures, lookups, it, wr):
         if names and (csv["names"] != [str(n) for n in names] or csv["units"] != own):
             return _fail(ctx, "write_csv pairs column names with other columns' units",
                          {"names": csv["names"], "units": csv["units"]}, {"names": names, "units": own}, "C04:csv-pairing")
-        # display formats: a column with format spec f shows its float values formatted with f
-        cm = t.column_metadata
-        for j, n in enumerate(names):
-            f = cm[n].display_format
-            col = df[n]
-            if f is not None and col.dtype.kind == "f" and own[j] not in ("text", "onoff", "datetime"):
-                for r, x in enumerate(col.tolist()):
-                    if x == x and r < len(csv["rows"]) and len(csv["rows"][r]) == len(names):
-                        exp = ("{:" + f.specifier + "}").format(x)
-                        if csv["rows"][r][j] != exp:
-                            return _fail(ctx, "write_csv formats a column with another column's display format",
-                                         {"column": n, "cell": csv["rows"][r][j]}, exp, "C04:csv-format")
+        if names and all(len(r) == len(names) for r in csv["rows"]) and len(csv["rows"]) == len(df):
+            written = {n: (csv["units"][j], [r[j] for r in csv["rows"]]) for j, n in enumerate(names)}
+            if _check_written_columns(ctx, t, names, own, written, "write_csv"):
+                return
+    csv_t = wr.get("csv_t")
+    if csv_t is not None:
+        if "exc" in csv_t:
+            out.count("csv_transposed_value_error:" + csv_t["exc"])
+        elif names:
+            cols = csv_t["cols"]
+            if [c[0] for c in cols] != [str(n) for n in names]:
+                return _fail(ctx, "write_csv (transposed) does not write one line per dataframe column in column order",
+                             [c[0] for c in cols], names, "C04:csv-transposed-columns")
+            if all(len(c) == 2 + len(df) for c in cols):
+                written = {n: (c[1], c[2:]) for n, c in zip(names, cols)}
+                if _check_written_columns(ctx, t, names, own, written, "write_csv (transposed)"):
+                    return
     js = wr["json"]
     if js is None:
         pass
@@ -1191,6 +1231,34 @@ def oracle_c04(ctx, t, units, ures, lookups, it, wr):
     elif names and (list(xl["names"]) != names or list(xl["units"]) != own):
         return _fail(ctx, "excel layout pairs column names with other columns' units", xl,
                      {"names": names, "units": own}, "C04:xlsx-pairing")
+
+
+def _check_written_columns(ctx, t, names, own, written, label):
+    """every column of the written text carries that column's own unit, and its numbers are rendered with that
+    column's own display format (Python's format() of the stored values; str() when the column has none)"""
+    df = ctx.df
+    cm = t.column_metadata
+    for j, n in enumerate(names):
+        unit, cells = written[n]
+        if unit != own[j]:
+            _fail(ctx, f"{label} pairs a column name with another column's unit", {"column": n, "unit": unit}, own[j],
+                  "C04:csv-pairing")
+            return True
+        col = df[n]
+        if str(col.dtype) not in ("float64", "int64") or own[j] in ("text", "onoff", "datetime"):
+            continue
+        f = cm[n].display_format
+        for x, cell in zip(col.tolist(), cells):
+            if x != x:
+                continue                      # missing values are written as the na_rep, not formatted
+            exp = ("{:" + f.specifier + "}").format(x) if f is not None else str(x)
+            if cell != exp:
+                _fail(ctx, f"{label} does not render a column with that column's own display format",
+                      {"column": n, "display_format": None if f is None else f.specifier, "cell": cell,
+                       "formats": {k: (None if v.display_format is None else v.display_format.specifier) for k, v in cm.items()}},
+                      exp, "C04:csv-format")
+                return True
+    return False
 
 
 def oracle_c15(ctx, t, units):
@@ -1342,7 +1410,7 @@ def function_level(out, rng, n):
 
 SCRIPT_ALPHABET = ["add_column", "setitem", "set_col_unit", "df_insert", "df_del", "df_rename", "df_move",
                    "df_assign", "df_astype", "df_loc_append", "df_drop_rows", "select", "copy", "sort_index",
-                   "reindex", "concat", "merge", "assign", "drop", "astype", "rows", "rewrap", "df_del_all"]
+                   "reindex", "concat", "merge", "assign", "drop", "astype", "rows", "rewrap", "df_del_all", "set_format"]
 EX_PLAN = (["a", "b", "c"], ["f", "s", "b"], 2, "good", True)
 # second enumeration, aimed at the remembered-state short cut: emptiness transitions around type-changing edits
 E_ALPHABET = ["df_drop_rows", "df_loc_append", "df_insert!", "df_assign!", "setitem!", "add_column!", "df_astype",
@@ -1381,12 +1449,12 @@ def run(tier, seed, model_ok, translator, search=False, prop="C04", weights=None
     out = Outcome()
     out.rule = ("operation histories on real Tables: random start table (0-4 columns of 16 value kinds, 0-3 rows, units "
                 "right / wrong / short / long / unit_map / absent, strict_types on/off) followed by random operations from an "
-                "alphabet of 37 (facade add_column/__setitem__/unit setters/re-wrap; in-place dataframe insert, del, rename, "
+                "alphabet of 38 (facade add_column/__setitem__/unit setters/re-wrap; in-place dataframe insert, del, rename, "
                 "relabel, move, sort, assign, astype, loc row append, drop rows/columns, cell assignment, fillna; pandas "
                 "select, copy, sort_index, reindex, concat both axes, merge, assign, drop, astype, fillna, replace, rename, "
                 "row selections incl. empty, set_axis, iloc); after every operation the table is consulted (units, per-column "
                 "lookup, iteration, writers) and compared with the model step by step; bounded-exhaustive scripts over a "
-                "23-operation alphabet from a fixed 3-column table and over an 8-operation alphabet around emptiness "
+                "24-operation alphabet from a fixed 3-column table and over an 8-operation alphabet around emptiness "
                 "transitions. Non-trivial: history with >= 1 successful consultation of "
                 "a table with rows after an operation; distinct by (start table, operation descriptions).")
     thorough = tier == "thorough"
